@@ -3,6 +3,7 @@
 package checks
 
 import (
+	"encoding/json"
 	"fmt"
 	"os"
 	"runtime/debug"
@@ -220,6 +221,14 @@ func schedVerdicts(res *core.Result, prop string, s *sched.Sched, races []raceRe
 			map[string]interface{}{"schedule_tail": s.Trace(40)})
 	}
 	for _, v := range s.VCRaces {
+		if vcDisabled() {
+			// the tree synchronises with something other than mutexes (atomics,
+			// Once, channels ...): vector clocks over lock events alone would call
+			// correctly synchronised accesses races. The race detector, which
+			// understands those primitives, remains.
+			res.Count("vc_check_disabled_tree_uses_other_synchronisation", 1)
+			break
+		}
 		a, b := v.PrevSite, v.Site
 		if a > b {
 			a, b = b, a
@@ -246,6 +255,25 @@ func schedVerdicts(res *core.Result, prop string, s *sched.Sched, races []raceRe
 			res.Violate(prop, "task_panic", fmt.Sprintf("task %s panicked: %v", t.Name, t.Panic), map[string]interface{}{"schedule_tail": s.Trace(40)})
 		}
 	}
+}
+
+var vcOff = -1
+
+func vcDisabled() bool {
+	if vcOff < 0 {
+		vcOff = 0
+		var info struct {
+			Other []string `json:"other_sync_primitives_not_owned_by_simulator"`
+		}
+		if json.Unmarshal([]byte(os.Getenv("VERIF_BUILD_INFO")), &info) == nil {
+			for _, o := range info.Other {
+				if strings.HasPrefix(o, "sync") || strings.HasPrefix(o, "channel") || strings.HasPrefix(o, "go statement") {
+					vcOff = 1
+				}
+			}
+		}
+	}
+	return vcOff == 1
 }
 
 func rw(w bool) string {
